@@ -205,9 +205,9 @@ theorem ibcApply_id (cl : Client) (hd : Hdr) : (ibcApply cl hd).id = cl.id := by
 theorem handleUpdate_ok {s s1 : St} {c : Nat} {hd : Hdr} (h : handleUpdate s c hd = (s1, none)) :
     s1.clients = s.clients ∧ s1.descs = s.descs ∧ s1.r2c = s.r2c ∧ s1.c2r = s.c2r ∧ s1.core = s.core ∧
     (∀ r, lookup s.c2r c = some r →
-      ∃ q, Core.getSeq s.core hd.propData = some q ∧ hd.propSig = hd.propData ∧ q.bonded = true ∧
-        (∃ ra, Core.getRa s.core q.rollapp = some ra ∧ hd.rev = Core.latestRev ra) ∧
-        (q.rollapp = r → ∀ d, getDesc s r hd.h = some d → Agrees hd.cons d)) := by
+      ∃ q, Core.getSeq s.core hd.propData = some q ∧ hd.propSig = hd.propData ∧ q.bonded = true ∧ q.rollapp = r ∧ hd.sole = true ∧
+        (∃ ra, Core.getRa s.core r = some ra ∧ hd.rev = Core.latestRev ra) ∧
+        (∀ d, getDesc s r hd.h = some d → Agrees hd.cons d)) := by
   unfold handleUpdate at h
   simp only at h
   split at h
@@ -226,52 +226,70 @@ theorem handleUpdate_ok {s s1 : St} {c : Nat} {hd : Hdr} (h : handleUpdate s c h
         simp [hr] at hcan
     | some q =>
       simp only [hq] at h
-      split at h
-      · simp at h
-      · rename_i hb
-        cases hra : Core.getRa s.core q.rollapp with
-        | none => simp [hra] at h
-        | some ra =>
-          simp only [hra] at h
-          split at h
-          · simp at h
-          · rename_i hrev
-            have hps' : hd.propSig = hd.propData := by simpa using hps
-            have hb' : q.bonded = true := by simpa using hb
-            have hrev' : hd.rev = Core.latestRev ra := by simpa using hrev
-            cases hf : Core.findByHeight ra hd.h with
-            | none =>
-              simp only [hf] at h
-              split at h
-              · simp at h
-              · rename_i hnd
-                simp only [Prod.mk.injEq, and_true] at h
-                subst h
-                refine ⟨rfl, rfl, rfl, rfl, rfl, ?_⟩
-                intro r _
-                refine ⟨q, rfl, hps', hb', ⟨ra, hra, hrev'⟩, ?_⟩
-                intro hqr d hd'
-                subst hqr
-                simp [hd'] at hnd
-            | some i =>
-              simp only [hf] at h
-              cases hst : ra.states[i - 1]? with
-              | none => simp [hst] at h
-              | some st =>
-                simp only [hst] at h
-                cases hv : validateHeader s q.rollapp st hd.cons hd.h with
-                | some e => simp [hv] at h
-                | none =>
-                  simp only [hv, Prod.mk.injEq, and_true] at h
+      by_cases hfor : foreignSeq s c q = true
+      · rw [if_pos hfor] at h
+        simp at h
+      · rw [if_neg hfor] at h
+        have hnative : ∀ r, lookup s.c2r c = some r → q.rollapp = r := by
+          intro r hr
+          unfold foreignSeq at hfor
+          simp only [hr] at hfor
+          simpa using hfor
+        split at h
+        · simp at h
+        rename_i hsole0
+        have hsole : ∀ r, lookup s.c2r c = some r → hd.sole = true := by
+          intro r hr
+          simp only [hr, Option.isSome_some, Bool.true_and, Bool.not_eq_true', Bool.not_eq_false] at hsole0
+          exact hsole0
+        split at h
+        · simp at h
+        · rename_i hb
+          cases hra : Core.getRa s.core q.rollapp with
+          | none => simp [hra] at h
+          | some ra =>
+            simp only [hra] at h
+            split at h
+            · simp at h
+            · rename_i hrev
+              have hps' : hd.propSig = hd.propData := by simpa using hps
+              have hb' : q.bonded = true := by simpa using hb
+              have hrev' : hd.rev = Core.latestRev ra := by simpa using hrev
+              cases hf : Core.findByHeight ra hd.h with
+              | none =>
+                simp only [hf] at h
+                split at h
+                · simp at h
+                · rename_i hnd
+                  simp only [Prod.mk.injEq, and_true] at h
                   subst h
                   refine ⟨rfl, rfl, rfl, rfl, rfl, ?_⟩
-                  intro r _
-                  refine ⟨q, rfl, hps', hb', ⟨ra, hra, hrev'⟩, ?_⟩
-                  intro hqr d hd'
+                  intro r hr
+                  have hqr := hnative r hr
                   subst hqr
-                  obtain ⟨d0, hd0, ha⟩ := validateHeader_none hv
-                  rw [hd'] at hd0; cases hd0
-                  exact ha
+                  refine ⟨q, rfl, hps', hb', rfl, hsole _ hr, ⟨ra, hra, hrev'⟩, ?_⟩
+                  intro d hd'
+                  simp [hd'] at hnd
+              | some i =>
+                simp only [hf] at h
+                cases hst : ra.states[i - 1]? with
+                | none => simp [hst] at h
+                | some st =>
+                  simp only [hst] at h
+                  cases hv : validateHeader s q.rollapp st hd.cons hd.h with
+                  | some e => simp [hv] at h
+                  | none =>
+                    simp only [hv, Prod.mk.injEq, and_true] at h
+                    subst h
+                    refine ⟨rfl, rfl, rfl, rfl, rfl, ?_⟩
+                    intro r hr
+                    have hqr := hnative r hr
+                    subst hqr
+                    refine ⟨q, rfl, hps', hb', rfl, hsole _ hr, ⟨ra, hra, hrev'⟩, ?_⟩
+                    intro d hd'
+                    obtain ⟨d0, hd0, ha⟩ := validateHeader_none hv
+                    rw [hd'] at hd0; cases hd0
+                    exact ha
 
 end DymVerif.LC
 
@@ -478,8 +496,8 @@ theorem withDescs_other {s1 s2 : St} {o : Core.Op} {ds : List (Nat × Option Nat
   · simpa using h.symm
 
 theorem resolveFork_ok {s s4 : St} {ra : Nat} {st : Core.SInfo} {cl : Client} (h : resolveFork s ra st cl = (s4, none)) :
-    cl.latest < st.start ∧ ∃ d, getDesc s ra st.start = some d ∧
-      s4 = setClient s { cl with cons := insCons st.start ⟨d.root, d.ts.getD 0, valHash st.creator⟩ cl.cons, latest := st.start, frozen := false } := by
+    cl.latest < st.start ∧ ∃ d q, getDesc s ra st.start = some d ∧ nextSeqFor s.core st st.start = some q ∧
+      s4 = setClient s { cl with cons := insCons st.start ⟨d.root, d.ts.getD 0, valHash q⟩ cl.cons, latest := st.start, frozen := false } := by
   unfold resolveFork at h
   split at h
   · simp at h
@@ -487,8 +505,12 @@ theorem resolveFork_ok {s s4 : St} {ra : Nat} {st : Core.SInfo} {cl : Client} (h
     cases hd : getDesc s ra st.start with
     | none => simp [hd] at h
     | some d =>
-      simp only [hd, Prod.mk.injEq, and_true] at h
-      exact ⟨by omega, d, rfl, h.symm⟩
+      simp only [hd] at h
+      cases hq : nextSeqFor s.core st st.start with
+      | none => simp [hq] at h
+      | some q =>
+        simp only [hq, Prod.mk.injEq, and_true] at h
+        exact ⟨by omega, d, q, rfl, rfl, h.symm⟩
 
 theorem validateNew_ok {s s4 : St} {ra : Nat} {st : Core.SInfo} {c : Nat} {cl : Client} (h : validateNew s ra st c cl = (s4, none)) :
     s4 = pruneBelow s c (st.last + 1) ∧ ∃ b, validateStateInfo s cl ra st = (b, none) := by
@@ -534,7 +556,7 @@ theorem afterUpdate_agree {s3 s4 : St} {m : Core.UpdMsg} {n : Nat} {st : Core.SI
           rw [h1] at h2; simpa using h2
         split at h
         · -- ResolveHardFork
-          obtain ⟨hlt, d0, hd0, e4⟩ := resolveFork_ok h
+          obtain ⟨hlt, d0, q0, hd0, _, e4⟩ := resolveFork_ok h
           subst e4
           have hid := getClient_id hcl
           refine ⟨?_, ClientsOk.setClient hc (clientOk_resolve (hc cl (getClient_mem hcl)) _ _ hlt)⟩
@@ -545,9 +567,9 @@ theorem afterUpdate_agree {s3 s4 : St} {m : Core.UpdMsg} {n : Nat} {st : Core.SI
           · subst hcc
             have hr' := huniq r c0 a rfl
             subst hr'
-            have : getClient (setClient s3 { cl with cons := insCons st.start ⟨d0.root, d0.ts.getD 0, valHash st.creator⟩ cl.cons, latest := st.start, frozen := false }) c0 =
-                some { cl with cons := insCons st.start ⟨d0.root, d0.ts.getD 0, valHash st.creator⟩ cl.cons, latest := st.start, frozen := false } := by
-              have := getClient_setClient_self (s := s3) (cl := { cl with cons := insCons st.start ⟨d0.root, d0.ts.getD 0, valHash st.creator⟩ cl.cons, latest := st.start, frozen := false }) (old := cl) (by simpa [hid] using hcl)
+            have : getClient (setClient s3 { cl with cons := insCons st.start ⟨d0.root, d0.ts.getD 0, valHash q0⟩ cl.cons, latest := st.start, frozen := false }) c0 =
+                some { cl with cons := insCons st.start ⟨d0.root, d0.ts.getD 0, valHash q0⟩ cl.cons, latest := st.start, frozen := false } := by
+              have := getClient_setClient_self (s := s3) (cl := { cl with cons := insCons st.start ⟨d0.root, d0.ts.getD 0, valHash q0⟩ cl.cons, latest := st.start, frozen := false }) (old := cl) (by simpa [hid] using hcl)
               simpa [hid] using this
             rw [this] at b; cases b
             rw [getCons_ins] at g
@@ -566,7 +588,7 @@ theorem afterUpdate_agree {s3 s4 : St} {m : Core.UpdMsg} {n : Nat} {st : Core.SI
                 simp only at this
                 omega
               · exact h2
-          · have hne : c0 ≠ ({ cl with cons := insCons st.start ⟨d0.root, d0.ts.getD 0, valHash st.creator⟩ cl.cons, latest := st.start, frozen := false } : Client).id := by
+          · have hne : c0 ≠ ({ cl with cons := insCons st.start ⟨d0.root, d0.ts.getD 0, valHash q0⟩ cl.cons, latest := st.start, frozen := false } : Client).id := by
               simpa [hid] using hcc
             rw [getClient_setClient_ne hne] at b
             rcases ha r c0 cl0 ht cs d a b g f with ⟨e, _⟩ | h2
